@@ -445,9 +445,9 @@ func driveSend(env *fw.Env, b *behaviour) *fw.Trace {
 	defer w.destroy()
 	w.s.Watchdog = time.Millisecond
 	status, note := fw.Realised, ""
-	procOf := map[int]string{}  // model sender -> scheduler process of its current call
-	holder := map[int]string{}  // model connection -> process parked while holding its write lock
-	conns := map[int]int{}      // model connection number -> driver connection number
+	procOf := map[int]string{} // model sender -> scheduler process of its current call
+	holder := map[int]string{} // model connection -> process parked while holding its write lock
+	conns := map[int]int{}     // model connection number -> driver connection number
 	diverge := func(f string, a ...any) {
 		if status == fw.Realised {
 			status, note = fw.Diverged, fmt.Sprintf(f, a...)
